@@ -891,6 +891,8 @@ class NetRun:
         except (TypeError, ValueError):
             self.trace.append(("fw-ignored",))
             return
+        if image is not None:
+            self.fw_served.pop((ftype_i, fver_i), None)  # a new image under this key: its block count is learnt anew
         done = self.model.ota.schedule(self.model.nodes, copy.deepcopy(nids), ftype_i, fver_i, image)
         for nid in done:
             self.model.nodes[nid]["reboot"] = True
@@ -1042,6 +1044,8 @@ class NetRun:
                 self.model.store_desired(call[1], call[2], int(call[3]), str(call[4]))
         elif call[0] == "fw" and "ok" in outcome:
             image = bytes.fromhex(call[4]) if call[4] else None
+            if image is not None:
+                self.fw_served.pop((int(call[2]), int(call[3])), None)
             donel = self.model.ota.schedule(self.model.nodes, call[1], int(call[2]), int(call[3]), image)
             for nid in donel:
                 self.model.nodes[nid]["reboot"] = True
